@@ -113,6 +113,21 @@ Print Assumptions C07_side_conditions_at_creation.
 (* "never moves an unready job", over whole runs, for instances whose machine post-buffers are unordered (FLEX, the
    default): EVERY -> TRANSIT transition applied in ANY run of the middleware takes the AGV's own claim, and the job
    taken is not in process - in the micro-log of every decision, for every action sequence, oracle and fuel. *)
+Theorem C07_every_pickup_claimed_and_not_in_process_every_instance :
+  forall (sigma : oracle) (i : inst) (fuel : nat) (x0 : state) (joker0 : Z) (ta : bool) (r : result) (m : mw)
+         (a : Z) (r' : result) (m' : mw) (lg : mlog),
+    inst_nonneg_b i = true ->
+    clock_b x0 = true -> wfs_b i x0 = true -> fresh2_b i x0 = true -> nodep_b x0 = true ->
+    reach sigma i fuel x0 joker0 ta r m -> mw_step sigma i fuel r m a = MOk r' m' lg ->
+    forall tr y, In (tr, y) lg -> transit_side_b tr y = true /\ transit_claim_b tr y = true.
+Proof.
+  intros sigma i fuel x0 joker0 ta r m a r' m' lg Hnn C W Fr D H Hm tr y Hin.
+  destruct (run_micro_states sigma i Hnn _ _ _ _ _ _ _ _ _ _ C W Fr D H Hm _ _ Hin) as [_ [_ [_ S]]].
+  apply side2_parts in S. tauto.
+Qed.
+Print Assumptions C07_every_pickup_claimed_and_not_in_process_every_instance.
+
+(* the same for the instance class of the earlier rounds (corollary) *)
 Theorem C07_every_pickup_claimed_and_not_in_process_flex :
   forall (sigma : oracle) (i : inst) (fuel : nat) (x0 : state) (joker0 : Z) (ta : bool) (r : result) (m : mw)
          (a : Z) (r' : result) (m' : mw) (lg : mlog),
@@ -137,14 +152,34 @@ Print Assumptions C07_every_pickup_claimed_and_not_in_process_flex.
    jobs arrive), picked up there no earlier than the completion with the matrix entry for exactly that direction,
    carried until pickup + travel (deliveries are applied exactly when due), available in front of the next machine no
    earlier than that, and started no earlier than available. *)
+Theorem C07_start_after_predecessor_plus_travel_every_instance :
+  forall (sigma : oracle) (i : inst) (fuel : nat) (x0 : state) (joker0 : Z) (ta : bool) (r : result) (m : mw),
+    inst_nonneg_b i = true ->
+    clock_b x0 = true -> wfs_b i x0 = true -> fresh2_b i x0 = true -> nodep_b x0 = true -> agv_phase_b x0 = true ->
+    reach sigma i fuel x0 joker0 ta r m -> travel_gap_b i (r_x r) = true.
+Proof. intros sigma i fuel x0 joker0 ta r m Hnn. apply run_travel_gap; auto. Qed.
+Print Assumptions C07_start_after_predecessor_plus_travel_every_instance.
+
+(* the same for the instance class of the earlier rounds (corollary) *)
 Theorem C07_start_after_predecessor_plus_travel_flex :
   forall (sigma : oracle) (i : inst) (fuel : nat) (x0 : state) (joker0 : Z) (ta : bool) (r : result) (m : mw),
     inst_nonneg_b i = true -> flex_post_b i = true ->
     clock_b x0 = true -> wfs_b i x0 = true -> fresh2_b i x0 = true -> nodep_b x0 = true -> agv_phase_b x0 = true ->
     reach sigma i fuel x0 joker0 ta r m -> travel_gap_b i (r_x r) = true.
-Proof. intros sigma i fuel x0 joker0 ta r m Hnn Hf. apply flex_travel_gap; auto. Qed.
+Proof. intros. eapply C07_start_after_predecessor_plus_travel_every_instance; eauto. Qed.
 Print Assumptions C07_start_after_predecessor_plus_travel_flex.
 
+Theorem C07_start_after_predecessor_plus_travel_micro_states_every_instance :
+  forall (sigma : oracle) (i : inst) (fuel : nat) (x0 : state) (joker0 : Z) (ta : bool) (r : result) (m : mw)
+         (a : Z) (r' : result) (m' : mw) (lg : mlog),
+    inst_nonneg_b i = true ->
+    clock_b x0 = true -> wfs_b i x0 = true -> fresh2_b i x0 = true -> nodep_b x0 = true -> agv_phase_b x0 = true ->
+    reach sigma i fuel x0 joker0 ta r m -> mw_step sigma i fuel r m a = MOk r' m' lg ->
+    forall tr y, In (tr, y) lg -> travel_gap_b i y = true.
+Proof. intros sigma i fuel x0 joker0 ta r m a r' m' lg Hnn. apply run_micro_travel_gap; auto. Qed.
+Print Assumptions C07_start_after_predecessor_plus_travel_micro_states_every_instance.
+
+(* the same for the instance class of the earlier rounds (corollary) *)
 Theorem C07_start_after_predecessor_plus_travel_micro_states_flex :
   forall (sigma : oracle) (i : inst) (fuel : nat) (x0 : state) (joker0 : Z) (ta : bool) (r : result) (m : mw)
          (a : Z) (r' : result) (m' : mw) (lg : mlog),
@@ -152,7 +187,7 @@ Theorem C07_start_after_predecessor_plus_travel_micro_states_flex :
     clock_b x0 = true -> wfs_b i x0 = true -> fresh2_b i x0 = true -> nodep_b x0 = true -> agv_phase_b x0 = true ->
     reach sigma i fuel x0 joker0 ta r m -> mw_step sigma i fuel r m a = MOk r' m' lg ->
     forall tr y, In (tr, y) lg -> travel_gap_b i y = true.
-Proof. intros sigma i fuel x0 joker0 ta r m a r' m' lg Hnn Hf. apply flex_micro_travel_gap; auto. Qed.
+Proof. intros. eapply C07_start_after_predecessor_plus_travel_micro_states_every_instance; eauto. Qed.
 Print Assumptions C07_start_after_predecessor_plus_travel_micro_states_flex.
 
 (* non-vacuity: the hypotheses hold for a compiled instance with AGV and non-zero travel times, and a run reaches a state
